@@ -3,6 +3,7 @@ CONSTANTS
   MaxLen <- MCMaxLen
   Seeds <- MCSeeds
   Pos <- MCPos
+  Tenths <- MCTenths
   NewTexts <- MCNewTexts
   FindLen <- MCFindLen
   Nums <- MCNums
